@@ -7,11 +7,38 @@
 (*   oshape, out    : shape and flat content (C order) of the result, in the *)
 (*                    encoding of the input; a result element that is not a  *)
 (*                    multiple of the case's unit is <<2, <<1>>>>.           *)
+(*   itype          : "image" | "segmentation" - the type attribute of the   *)
+(*                    info the downscaler was requested for.  method may be  *)
+(*                    "auto" (get_downscaler("auto", info, options)): the    *)
+(*                    documented selection rule - "average" for images,      *)
+(*                    "stride" for segmentations - is applied HERE (Eff), and *)
+(*                    the configured outside value belongs to the selected   *)
+(*                    averaging method just as with the explicit name.       *)
 (* Clauses, in this order: oracle:Raised (supported factors must work),      *)
 (* oracle:OutShape, oracle:DType, oracle:InRange (some element outside the   *)
 (* range of its contributors: overflow / wrap), then the statistic itself    *)
-(* oracle:BlockMean / oracle:Majority / oracle:Stride.  pos = first bad      *)
-(* element (1-based flat index).                                             *)
+(* oracle:BlockMean / oracle:Majority / oracle:Stride.                       *)
+(*                                                                           *)
+(* OUTSIDE VALUE OUTSIDE THE RANGE OF AN INTEGER DATA TYPE (OvInType false): *)
+(* the exact mean of a border block may then not be representable in the     *)
+(* unchanged data type, so the statement's clauses cannot all hold; the      *)
+(* weaker reading is adopted: an exception is accepted (oracle:Raised is not *)
+(* evaluated), BlockMean is NOT demanded, only OutShape, DType and InRange   *)
+(* ("never overflow or wrap, between the minimum and maximum of the          *)
+(* contributing values" - the outside value being a contributor).            *)
+(*                                                                           *)
+(* pos = first bad element (1-based flat index); for a failing InRange /     *)
+(* BlockMean clause of the averaging method on integer data pos is           *)
+(* <<first bad element, class>> where class (DevClass) is a structural fact  *)
+(* of the deviation computed here and used ONLY for known-finding matching:  *)
+(*   "near"  every wrong element o satisfies |out - mean| <= 1 or            *)
+(*           |out - mean| * 2^51 <= max |contributor of o|  (a few ULPs of a *)
+(*           53-bit work type: relative error <= 2^-51),                     *)
+(*   "gross" some wrong element is farther away (wrap-around / overflow) or  *)
+(*           is not a value at all.                                          *)
+(* (When the outside value is not a value of the type only InRange is judged *)
+(* and the class is taken from the distance to the interval [min, max] of    *)
+(* the contributors instead of the distance to the mean.)                    *)
 EXTENDS Downscale, Json, IOUtils, TLC
 
 Cases == ndJsonDeserialize(IOEnv.TRACE_FILE)
@@ -21,24 +48,61 @@ OutVal(c, o) == IF c.enc = "nat" THEN <<0, FromNat(c.out[o])>>
                 ELSE IF c.out[o][1] = 2 THEN c.out[o] ELSE SCanon(c.out[o])
 MinOf(S) == CHOOSE o \in S : \A q \in S : o <= q
 
-Verdict(c) ==
+\* ---- documented method selection of "auto" (oracle) -------------------------
+Eff(c) == IF c.method # "auto" THEN c
+          ELSE [c EXCEPT !.method = IF c.itype = "image" THEN "average" ELSE "stride"]
+
+\* ---- is the outside value a value of the (integer) data type? --------------
+TypeBitsOf(dt) == IF dt = "uint8" THEN 8 ELSE IF dt = "uint16" THEN 16
+                  ELSE IF dt = "uint32" THEN 32 ELSE 64
+OvInType(c) ==
+  \/ c.method # "average" \/ c.pad # "const" \/ c.kind = "float"
+  \/ LET v == Val(c, c.ov) IN v[1] = 0 /\ Len(v[2]) <= TypeBitsOf(c.dtype)
+
+\* ---- class of a deviation from the exact mean (known-finding matching only) -
+SNeg(a) == SCanon(<<1 - a[1], a[2]>>)
+MaxMag(vals) == LET i == CHOOSE i \in 1..Len(vals) : \A j \in 1..Len(vals) : Leq(vals[j][2], vals[i][2])
+                IN vals[i][2]
+NearMean(c, p, out) ==
+  /\ out[1] # 2
+  /\ LET err == SAdd(out, SNeg(BlockMean(c, p)))[2]
+     IN Leq(err, <<1>>) \/ Leq(ShiftL(err, 51), MaxMag(MeanContrib(c, p)))
+DevClass(c, bad) ==
+  IF \A o \in bad : NearMean(c, Coord(c.oshape, o), OutVal(c, o)) THEN "near" ELSE "gross"
+
+\* outside value not a value of the type (only InRange is judged): distance to the
+\* interval [min, max] of the contributors instead of the distance to the mean
+NearRange(c, p, out) ==
+  /\ out[1] # 2
+  /\ LET vals == MeanContrib(c, p)
+         lo == SMin(vals)
+         hi == SMax(vals)
+         dist == IF SLess(out, lo) THEN SAdd(lo, SNeg(out))[2]
+                 ELSE IF SLess(hi, out) THEN SAdd(out, SNeg(hi))[2] ELSE << >>
+     IN Leq(dist, <<1>>) \/ Leq(ShiftL(dist, 51), MaxMag(vals))
+RangeClass(c, bad) ==
+  IF \A o \in bad : NearRange(c, Coord(c.oshape, o), OutVal(c, o)) THEN "near" ELSE "gross"
+
+VerdictE(c) ==
   IF ~Supported(c) \/ Len(c.data) # NVox(c.shape) THEN <<"machinery:BadCase", 0>>
-  ELSE IF c.exc # "" THEN <<"oracle:Raised", 0>>
+  ELSE IF c.exc # "" THEN (IF OvInType(c) THEN <<"oracle:Raised", 0>> ELSE <<"ok", 0>>)
   ELSE IF c.oshape # OutShape(c.shape, c.f) THEN <<"oracle:OutShape", 0>>
   ELSE IF c.odtype # c.dtype THEN <<"oracle:DType", 0>>
   ELSE IF Len(c.out) # NVox(c.oshape) THEN <<"machinery:OutputLength", 0>>
   ELSE LET idx == 1..NVox(c.oshape)
            P(o) == Coord(c.oshape, o)
            inexact == {o \in idx : ~MeanIsExact(MeanContrib(c, P(o)))}
-           badRange == {o \in idx : c.out[o][1] = 2 \/ ~InRange(c, P(o), OutVal(c, o))}
-           badStat == {o \in idx : OutVal(c, o) # Expected(c, P(o))}
+           badRange == {o \in idx : (c.enc = "sm" /\ c.out[o][1] = 2) \/ ~InRange(c, P(o), OutVal(c, o))}
+           badStat == IF OvInType(c) THEN {o \in idx : OutVal(c, o) # Expected(c, P(o))} ELSE {}
+           pos(S) == IF c.method = "average" /\ c.kind = "int"
+                     THEN <<MinOf(S), IF OvInType(c) THEN DevClass(c, badStat) ELSE RangeClass(c, badRange)>>
+                     ELSE MinOf(S)
        IN IF c.kind = "float" /\ c.method = "average" /\ inexact # {}
           THEN <<"machinery:FloatMeanNotExact", MinOf(inexact)>>
-          ELSE IF c.enc = "sm" /\ badRange # {} THEN <<"oracle:InRange", MinOf(badRange)>>
-          ELSE IF c.enc = "nat" /\ {o \in idx : ~InRange(c, P(o), OutVal(c, o))} # {}
-               THEN <<"oracle:InRange", MinOf({o \in idx : ~InRange(c, P(o), OutVal(c, o))})>>
-          ELSE IF badStat # {} THEN <<StatClause(c), MinOf(badStat)>>
+          ELSE IF badRange # {} THEN <<"oracle:InRange", pos(badRange)>>
+          ELSE IF badStat # {} THEN <<StatClause(c), pos(badStat)>>
           ELSE <<"ok", 0>>
+Verdict(c) == VerdictE(Eff(c))
 
 \* The verdict is computed on the SUCCESSOR state (done = TRUE): TLC generates
 \* initial states in one thread but explores successors with all workers.
